@@ -9,7 +9,8 @@ VARIABLES l, lastid
 HasCls(o, c) == o.k = "exc" /\ \E i \in 1..Len(o.mro) : o.mro[i] = c
 ExpectedClauses(r) ==
   LET e == Outcome(r.in.kind, r.in.code) IN
-  IF e.k = "ret" THEN << <<"result-reply-returns", r.out.k = "ret">> >>
+  IF e.k = "any" THEN <<>>                                   \* transport fault: outcome unconstrained (Rpc.tla)
+  ELSE IF e.k = "ret" THEN << <<"result-reply-returns", r.out.k = "ret">> >>
   ELSE IF r.in.kind = "error-code" /\ r.in.code = IndexErrorCode(r.in.method)
        THEN << <<"documented-IndexError-translation", r.out.k = "exc" /\ r.out.cls = "IndexError">> >>
   ELSE << <<"error-reply-never-yields-result", r.out.k = "exc">>,
@@ -17,6 +18,9 @@ ExpectedClauses(r) ==
 CallClauses(r) ==
   ExpectedClauses(r) \o
   << <<"request-id-strictly-increases", r.out.id > lastid>>,
+     \* every request this call put on the wire - a failed one and a retry both count
+     <<"request-ids-strictly-increase-across-faults",
+       \A i \in 1..Len(r.out.ids) : r.out.ids[i] > (IF i = 1 THEN lastid ELSE r.out.ids[i - 1])>>,
      <<"sent-amounts-exact",
        \A i \in 1..Len(r.out.sent_amounts) :
           LET d == DenotedSats(r.out.sent_amounts[i].text) IN d.ok /\ d.sats = r.out.sent_amounts[i].sats>>,
@@ -36,11 +40,13 @@ Clauses(r) ==
   CASE r.op = "rpc.new" -> <<>>
     [] r.op = "rpc.call" -> CallClauses(r)
     [] OTHER -> << <<"unknown-op", FALSE>> >>
+RECURSIVE MaxOfSeq(_, _)
+MaxOfSeq(q, m) == IF q = <<>> THEN m ELSE MaxOfSeq(Tail(q), Max2(m, q[1]))
 TraceInit == l = TraceStart /\ lastid = -1
 TraceNext ==
   /\ l <= Len(Recs) /\ l' = l + 1
   /\ LET r == Recs[l] IN
      /\ Judge(r, Clauses(r))
-     /\ lastid' = IF r.op = "rpc.new" THEN -1 ELSE IF r.out.id > lastid THEN r.out.id ELSE lastid
+     /\ lastid' = IF r.op = "rpc.new" THEN -1 ELSE Max2(lastid, MaxOfSeq(r.out.ids, r.out.id))
 TraceDone == TLCGet("stats").diameter = Len(Recs) - TraceStart + 2 /\ Accepted(Len(Recs))
 =============================================================================
